@@ -34,11 +34,35 @@ pub struct GenCfg {
     pub comments: bool,
     pub label_own_line: bool,
     pub main_label: bool,
+    /// the functions are written before the main code (the first instruction is a function)
+    #[serde(default)]
+    pub fn_first: bool,
+    /// every function has a tail label and jumps into other functions' tails are frequent
+    #[serde(default)]
+    pub overlap_heavy: bool,
 }
 
 impl GenCfg {
     /// Swarm configuration: every knob drawn independently per run.
     pub fn swarm(r: &mut Rng) -> GenCfg {
+        let mut g = Self::swarm_base(r);
+        if r.chance(1, 10) {
+            g.make_overlap_heavy();
+        }
+        g
+    }
+
+    /// Code shared by several functions: every function has a tail, jumps into other functions'
+    /// tails are frequent, several returns.
+    pub fn make_overlap_heavy(&mut self) {
+        self.overlap_heavy = true;
+        self.shared_tail = true;
+        self.multi_ret = true;
+        self.n_funcs = self.n_funcs.max(3);
+        self.noreturn_fn = false;
+    }
+
+    fn swarm_base(r: &mut Rng) -> GenCfg {
         let size_class = r.below(10);
         let body_items = match size_class {
             0..=5 => 1 + r.usize(3),
@@ -75,6 +99,8 @@ impl GenCfg {
             comments: r.chance(1, 3),
             label_own_line: r.chance(3, 4),
             main_label: r.chance(4, 5),
+            fn_first: r.chance(1, 10),
+            overlap_heavy: false,
         }
     }
 
@@ -257,6 +283,12 @@ impl Gen<'_> {
     }
 
     fn arith(&mut self, ctx: &mut FnCtx) {
+        if self.cfg.discipline >= 1 && self.r.chance(1, 18) {
+            // push or pop without its counterpart
+            let k = *self.r.pick(&[-16i64, -8, -4, 4, 8, 16]);
+            self.emit(format!("addi {0}, {0}, {k}", self.reg("sp")));
+            return;
+        }
         let a = self.src(ctx);
         let b = self.src(ctx);
         let d = self.dst(ctx);
@@ -319,8 +351,19 @@ impl Gen<'_> {
     fn cond(&mut self, ctx: &FnCtx, target: &str) -> String {
         let a = self.src(ctx);
         let b = self.src(ctx);
+        // now and then the zero register in one position (always/never/sometimes-taken forms)
+        let (a, b) = match self.r.below(12) {
+            0 => ("zero", b),
+            1 => (a, "zero"),
+            _ => (a, b),
+        };
         let (a, b) = (self.reg(a), self.reg(b));
-        match self.r.below(8) {
+        match self.r.below(13) {
+            8 => format!("bgeu {a}, {b}, {target}"),
+            9 => format!("bleu {a}, {b}, {target}"),
+            10 => format!("bgtu {a}, {b}, {target}"),
+            11 => format!("ble {a}, {b}, {target}"),
+            12 => format!("bgez {a}, {target}"),
             0 => format!("beq {a}, {b}, {target}"),
             1 => format!("bne {a}, {b}, {target}"),
             2 => format!("blt {a}, {b}, {target}"),
@@ -418,7 +461,25 @@ impl Gen<'_> {
     fn body(&mut self, ctx: &mut FnCtx, items: usize, depth: usize) {
         for _ in 0..items {
             let in_fn = ctx.idx.is_some();
-            match self.r.below(20) {
+            match self.r.below(21) {
+                20 if depth < 3 => {
+                    // unstructured jumps: a block that is only entered by a backward jump
+                    let la = self.fresh("spa");
+                    let lb = self.fresh("spb");
+                    let lc = self.fresh("spc");
+                    self.emit(format!("j {la}"));
+                    self.emit_label(&lb);
+                    self.arith(ctx);
+                    self.emit(format!("j {lc}"));
+                    self.emit_label(&la);
+                    self.arith(ctx);
+                    if self.r.chance(1, 2) {
+                        let c = self.cond(ctx, &lc);
+                        self.emit(c);
+                    }
+                    self.emit(format!("j {lb}"));
+                    self.emit_label(&lc);
+                }
                 0..=6 => self.arith(ctx),
                 7..=8 => self.mem(ctx),
                 9..=10 => self.call(ctx),
@@ -466,6 +527,29 @@ impl Gen<'_> {
                     self.emit(format!("addi {0}, {0}, -1", self.reg(cnt)));
                     self.emit(format!("bnez {}, {ll}", self.reg(cnt)));
                 }
+                14..=17 if in_fn && self.cfg.overlap_heavy && self.r.chance(1, 2) => {
+                    let me = ctx.idx.unwrap_or(usize::MAX);
+                    let tails: Vec<String> = self.tail_labels.iter().enumerate().filter(|(k, t)| *k != me && t.is_some()).filter_map(|(_, t)| t.clone()).collect();
+                    if let Some(t) = tails.get(self.r.usize(tails.len().max(1))).cloned() {
+                        let c = self.cond(ctx, &t);
+                        self.emit(c);
+                    } else {
+                        self.arith(ctx);
+                    }
+                }
+                16 | 17 if in_fn && self.cfg.shared_tail && self.r.chance(1, 3) => {
+                    // conditional jump into the tail of some other function: a function can then
+                    // reach the code (and the exits) of several others
+                    let me = ctx.idx.unwrap_or(usize::MAX);
+                    let tails: Vec<String> = self.tail_labels.iter().enumerate().filter(|(k, t)| *k != me && t.is_some()).filter_map(|(_, t)| t.clone()).collect();
+                    if tails.is_empty() {
+                        self.arith(ctx);
+                    } else {
+                        let t = self.r.pick(&tails).clone();
+                        let c = self.cond(ctx, &t);
+                        self.emit(c);
+                    }
+                }
                 17 if in_fn && self.cfg.multi_ret && depth < 3 => {
                     // early return
                     let lc = self.fresh("cont");
@@ -474,7 +558,7 @@ impl Gen<'_> {
                     self.ret(ctx);
                     self.emit_label(&lc);
                 }
-                19 if !in_fn && self.cfg.code_after_exit && depth == 0 => {
+                19 if self.cfg.code_after_exit && depth == 0 => {
                     // an ecall reached by fall-through from an exit and by a jump that sets a7 elsewhere
                     let lx = self.fresh("shx");
                     let lp = self.fresh("shp");
@@ -489,8 +573,13 @@ impl Gen<'_> {
                     self.emit("ecall".into());
                     self.emit_label(&lx);
                     self.emit("ecall".into());
-                    self.arith(ctx);
-                    self.emit(format!("j {ld}"));
+                    if in_fn && self.r.chance(1, 2) {
+                        // directly followed by a further return of the function
+                        self.ret(ctx);
+                    } else {
+                        self.arith(ctx);
+                        self.emit(format!("j {ld}"));
+                    }
                     self.emit_label(&lp);
                     let n2 = *self.r.pick(&[10i64, 93, 1, 5]);
                     self.emit(format!("li {}, {n2}", self.reg("a7")));
@@ -558,7 +647,7 @@ impl Gen<'_> {
             3 => "addi t0, t0, 99999999999".to_string(),
             4 => ".asciz \"unterminated".to_string(),
             5 => ".unknowndir 4".to_string(),
-            6 => "li t0, 'ab'".to_string(),
+            6 => (*self.r.pick(&["li t0, 'ab'", "li a0, '\u{a0}' oops", ".asciz \"a\u{3000}b\u{a0}\" extra", "li a0, '\u{3000}' , , oops t1"])).to_string(),
             _ => ") stray".to_string(),
         };
         self.emit(s);
@@ -577,22 +666,25 @@ impl Gen<'_> {
             }
             self.fn_names.push(names);
             // decided up front so that an earlier function can jump forward into a later one's tail
-            let tail = if cfg.shared_tail && self.r.chance(1, 2) { Some(format!("tailf{k}")) } else { None };
+            let tail = if cfg.shared_tail && (cfg.overlap_heavy || self.r.chance(1, 2)) { Some(format!("tailf{k}")) } else { None };
             self.tail_labels.push(tail);
         }
         let data_first = cfg.data && self.r.chance(1, 2);
         if data_first {
             self.data_block();
         }
+        let main_start = self.out.len();
         if cfg.main_label {
             self.emit_label("main");
         }
         let mut mctx = FnCtx { idx: None, frame: 0, saved: vec![], saves_ra: false, defined: vec!["zero"] };
         if cfg.handler {
             self.emit(format!("la {}, handler", self.reg("t0")));
-            let s = match self.r.below(3) {
+            let s = match self.r.below(5) {
                 0 => format!("csrrw {}, utvec, {}", self.reg("zero"), self.reg("t0")),
                 1 => format!("csrw {}, utvec", self.reg("t0")),
+                2 => format!("csrrw {0}, utvec, {0}", self.reg("t0")),
+                3 => format!("csrrw {}, utvec, {}", self.reg("t1"), self.reg("t0")),
                 _ => format!("csrrw {}, 5, {}", self.reg("zero"), self.reg("t0")),
             };
             self.emit(s);
@@ -636,6 +728,7 @@ impl Gen<'_> {
             self.exit();
         }
 
+        let fn_start = self.out.len();
         for k in 0..cfg.n_funcs {
             for n in self.fn_names[k].clone() {
                 self.emit_label(&n);
@@ -707,13 +800,50 @@ impl Gen<'_> {
                 self.ret(&ctx);
             }
         }
+        if cfg.fn_first && fn_start > main_start && self.out.len() > fn_start {
+            // move the block of functions in front of the main code
+            let funcs: Vec<String> = self.out.drain(fn_start..).collect();
+            let rest: Vec<String> = self.out.drain(main_start..).collect();
+            self.out.extend(funcs);
+            self.out.extend(rest);
+        }
         if cfg.handler {
             self.emit_label("handler");
             let mut ctx = FnCtx { idx: Some(usize::MAX), frame: 0, saved: vec![], saves_ra: false, defined: vec!["zero"] };
             let saved_fns = std::mem::take(&mut self.fn_names);
+            let save_area = self.r.chance(1, 2);
+            if save_area {
+                // the usual shape: swap a register with uscratch, save registers through it
+                let scratch = *self.r.pick(&["uscratch", "64"]);
+                self.emit(format!("csrrw {0}, {scratch}, {0}", self.reg("a0")));
+                if self.r.chance(1, 2) {
+                    // a fatal-error path that exits, written in front of the save code
+                    let ls = self.fresh("save");
+                    self.emit(format!("beqz {}, {ls}", self.reg("t0")));
+                    if self.r.chance(1, 2) {
+                        self.emit(format!("li {}, 4", self.reg("a7")));
+                        self.emit("ecall".into());
+                    }
+                    self.exit();
+                    self.emit_label(&ls);
+                }
+                self.emit(format!("sw {}, 0({})", self.reg("t0"), self.reg("a0")));
+                self.emit(format!("sw {}, 4({})", self.reg("t1"), self.reg("a0")));
+                if self.r.chance(1, 2) {
+                    self.emit(format!("csrr {}, ucause", self.reg("t0")));
+                }
+            }
             let n_items = 1 + self.r.usize(2);
             self.body(&mut ctx, n_items, 1);
             self.fn_names = saved_fns;
+            if save_area {
+                if self.r.chance(1, 2) {
+                    self.emit(format!("addi {}, {}, 1", self.reg("t1"), self.reg("zero")));
+                }
+                self.emit(format!("lw {}, 4({})", self.reg("t1"), self.reg("a0")));
+                self.emit(format!("lw {}, 0({})", self.reg("t0"), self.reg("a0")));
+                self.emit(format!("csrrw {0}, uscratch, {0}", self.reg("a0")));
+            }
             self.emit("uret".into());
         }
         if cfg.duplicate_label {
